@@ -32,10 +32,17 @@ def run(tier, chk):
     for w in wts:
         w["cfg"] = dict(w["cfg"], log_wrote=True, setup_log=True)
     common.run_sim(chk, wd, wts, "C14_Trace", label="wtsim", shards=2, sig_of=lambda s, t, w: "c14:webtransport-stream-header-under-partial-writes")
+    # the real adapter: h3 (both roles) over h3-quinn against a RAW Quinn peer with tiny windows, which records what it reads per stream
+    raws = []
+    for role in ("client", "server"):
+        for w in ([64, 200, 0] if tier == "quick" else [64, 100, 200, 1000, 4096, 0]):
+            for body in ([], [1], [70], [1000, 0, 5], [5000]) + (() if tier == "quick" else ([16384], [3, 20000, 1])):
+                raws.append({"fam": "H3RAW", "role": role, "win": {"stream": w}, "body": list(body), "id": f"raw-{len(raws)+1}"})
+    common.run_sim(chk, wd, raws, "C14_Trace", label="raw", shards=6, runner="quinn", sig_of=lambda s, t, w: f"c14:quinn:{s['role']}:win{s['win']['stream']}")
     # binding A: the byte image of DATA frames whose payload buffer is not contiguous (two pieces), drained in several step sizes
     nv = common.run_vectors(chk, wd, "C14W_Gen", workers=2, label="wbuf", sig_of=lambda v, got: "wbuf:panic" if isinstance(got, dict) and "panic" in got else "wbuf:data-frame-image")
     chk.exhaustive = True
-    chk.distinct_nontrivial = len(scns) + len(pair) + nv + len(wts)
+    chk.distinct_nontrivial = len(scns) + len(pair) + nv + len(wts) + len(raws)
     chk.rule = (f"API programs of up to {m} calls after the head (send_data 0/1/5/70 bytes, send_trailers, finish, drop) x shutdown(n in 0,1,15,4095: GOAWAY identifiers at varint form boundaries) x second request x 5 configurations "
                 "(grease, 1- and 3-byte writes, uni-stream credit withheld then granted) for both roles against a scripted peer, plus the C01 client<->server catalogue; every stream's "
                 "byte log judged by WireOut at quiescence; plus the WriteBuf image of DATA frames with a two-piece (non-contiguous) payload buffer, 4 x 5 piece lengths x 6 drain patterns")
